@@ -3287,7 +3287,8 @@ class ISLaEmitter(IslaLanguageListener.IslaLanguageListener):
         fresh_var = fresh_bound_variable(
             self.used_variables
             | {var.name for var in self.vars_for_free_nonterminals.values()}
-            | {var.name for var in self.vars_for_xpath_expressions.values()},
+            | {var.name for var in self.vars_for_xpath_expressions.values()}
+            | {self.constant.name},
             BoundVariable(last_nonterminal[1:-1], last_nonterminal),
             add=False,
         )
